@@ -73,3 +73,41 @@ Example C18_type_domain_example :
   TypeDom.denote true (TypeDom.mkDecl true "CREATE" "TYPE" (Some "[Dev]") "Status" "AS" "ENUM" (TypeDom.VLit "'on'") [TypeDom.VLit "'off'"]) =
   PDict [("schema", PStr "Dev"); ("type_name", PStr "Status"); ("properties", PDict [("values", PList [PStr "'on'"; PStr "'off'"])]); ("base_type", PStr "ENUM")].
 Proof. vm_compute. repeat split. Qed.
+
+(* ---------- CREATE TYPE ... AS OBJECT (attribute list) ------------------------------------------------------------------------------------------
+   For EVERY statement  CREATE TYPE [s.]n AS base (attr, attr, ...)  with attr = name type [(n) | (p, s)] — keywords in any letter
+   case, ANY number of attributes, both normalize_names settings, silent or not — the model returns exactly one type entity: schema,
+   name and base type as written and, for OBJECT (any letter case), the attributes in declaration order, each with its name, type
+   and size (35-configuration closed invariant on the real tables + induction over the attribute list, Proofs/TypeObjProofs.v). *)
+From SDP Require TypeObj TypeObjProofs TypeObjOutProofs.
+Theorem C18_object_type_exact : forall o norm silent, TypeObj.wf norm o = true ->
+  parse_lexemes norm silent (TypeObj.lexemes o) = Ok (Some (TypeObj.denote norm o)).
+Proof. exact TypeObjProofs.typeobj_parse. Qed.
+Print Assumptions C18_object_type_exact.
+Theorem C18_object_type_reported : forall o norm m, In m Tokens.modes ->
+  (m <> "bigquery" \/ TypeObj.o_schema o = None \/ (exists s, TypeObj.o_schema o = Some s /\ nms norm s = "")) ->
+  exists e, TypeObj.denote norm o = PDict e /\ Output.format m false [PDict e] = Ok (PList [PDict e]).
+Proof. exact TypeObjOutProofs.typeobj_every_mode. Qed.
+Print Assumptions C18_object_type_reported.
+Theorem C18_object_type_bigquery : forall o norm s, TypeObj.o_schema o = Some s -> nms norm s <> "" ->
+  exists e, TypeObj.denote norm o = PDict e /\
+            Output.format "bigquery" false [PDict e] = Ok (PList [PDict (dict_del (dict_set e "dataset" (PStr (nms norm s))) "schema")]).
+Proof. exact TypeObjOutProofs.typeobj_bigquery. Qed.
+Print Assumptions C18_object_type_bigquery.
+Theorem C18_attributes_in_order : forall norm o,
+  String.eqb (upper (nms norm (TypeObj.o_base o))) "ENUM" = false -> String.eqb (upper (nms norm (TypeObj.o_base o))) "OBJECT" = true ->
+  TypeObj.props norm o = PDict [("attributes", PList (map (TypeObj.attr_value norm) (TypeObj.o_attrs o)))] /\
+  List.length (map (TypeObj.attr_value norm) (TypeObj.o_attrs o)) = S (List.length (TypeObj.o_rest o)).
+Proof. exact TypeObjOutProofs.attributes_in_order. Qed.
+Print Assumptions C18_attributes_in_order.
+Example C18_object_type_example :
+  TypeObj.wf false (TypeObj.mkTObj "create" "TYPE" (Some "s") "addr" "as" "object"
+                      (TypeObj.mkAttr "street" "varchar" (Some ("50", None))) [TypeObj.mkAttr "zip" "int" None; TypeObj.mkAttr "amount" "numeric" (Some ("10", Some "2"))]) = true /\
+  TypeObj.denote false (TypeObj.mkTObj "create" "TYPE" (Some "s") "addr" "as" "object"
+                      (TypeObj.mkAttr "street" "varchar" (Some ("50", None))) [TypeObj.mkAttr "zip" "int" None; TypeObj.mkAttr "amount" "numeric" (Some ("10", Some "2"))]) =
+  PDict [("schema", PStr "s"); ("type_name", PStr "addr");
+         ("properties", PDict [("attributes", PList [PDict [("name", PStr "street"); ("type", PStr "varchar"); ("size", PInt 50)];
+                                                     PDict [("name", PStr "zip"); ("type", PStr "int"); ("size", PNone)];
+                                                     PDict [("name", PStr "amount"); ("type", PStr "numeric"); ("size", PTuple [PInt 10; PInt 2])]])]);
+         ("base_type", PStr "object")].
+Proof. vm_compute. repeat split. Qed.
